@@ -209,6 +209,15 @@ def run(ctx):
                     hv = TermCx(P, H, {n + 1: a for n, a in enumerate(X[2])}, 1)
                     alts = [hv.operand(rv["ops"][0]) for (b, k, rv) in ret_writes(H) if k == "err"]
                     cands.append((tuple(alts), lambda x: x[0] in ("errval",) or (x[0] == "field" and mentions(x, lambda s: s[0] == "errval"))))
+            # a match in place: the Err values written in the failure region of the share check
+            for (e, fa) in v.facts:
+                if fa[0] == "succ" and not fa[2] and share_check(item, arg(1), arg(2))(peel_result(fa[1])) and fa[1][0] != "map_err":
+                    oks_ = [e2 for (e2, f2) in v.facts if e2[0] == e[0] and f2[0] == "succ" and f2[2]]
+                    reach_ok = set().union(*[p3.reach(e2[1], stop=frozenset({e[0]})) - {e[0]} for e2 in oks_]) if oks_ else set()
+                    region = p3.reach(e[1]) - reach_ok
+                    alts = [v.cx.operand(rv["ops"][0]) for (b, k, rv) in ret_writes(p3) if k == "err" and b in region]
+                    if alts:
+                        cands.append((tuple(alts), lambda x: x[0] == "errval" or mentions(x, lambda s: s[0] == "errval")))
             good = False
             for alts, is_orig in cands:
                 named = [x for x in alts if x[0] == "agg" and x[3] == "InvalidSecretShare"]
